@@ -18,9 +18,10 @@ LEVEL_TEXT = ("per sampled authentic file the fault space named by the property 
               "sample that always contains the last cut points and all structural fields); files themselves are sampled")
 LEVEL_NOTE = ("oracle: raise, or content equal to the original (comments + components; session key when at least one "
               "component binds it); auth-block list not compared; trusts RefDir only for naming regions")
-RUNS = {"quick": 1400, "thorough": 480}
-OPTIMIZED_PASS = {"quick": 100, "thorough": 30}   # extra runs under PYTHONOPTIMIZE=1 (assert statements removed)
+RUNS = {"quick": 1400, "thorough": 240}
+OPTIMIZED_PASS = {"quick": 100, "thorough": 16}   # extra runs under PYTHONOPTIMIZE=1 (assert statements removed)
 RUN_WALL_CAP = 1800   # a thorough run enumerates every fault of one file
+CHUNK_WALL_CAP = {"quick": 900, "thorough": 7200}
 RULE = ("per run one authentic BF3/BEC2 file (seeded shapes of C01/C02) and a list of single faults, "
         "each applied alone: writer crash at write call k keeping n bytes (simulated, real writer), "
         "every/sampled text prefix, binary prefix, byte replacement (8 bit flips, 00, FF, +1) at "
@@ -68,8 +69,10 @@ def gen(st, tier):
         spec["faults"] = [["rep", ["frac", 0.05 + 0.9 * f.random()], f.choice(CLASSES)] for _ in range(6)] + [
             ["cut_bin", ["end", 0]], ["cut_bin", ["frac", f.random()]], ["cut_text", ["frac", f.random()]]]
         return spec
-    spec = files.file_spec(w, max_len=200 if tier == "quick" else 120, p_enc=0.25)
+    spec = files.file_spec(w, max_len=200 if tier == "quick" else 120, p_enc=0.25, allow_many=(tier == "quick"))
     if tier == "thorough":
+        # complete enumeration per file: keep the file small enough for it (comments are not part of the binary)
+        spec["obj"]["comments"] = [c for c in spec["obj"]["comments"] if len(c[1]) < 200]
         spec["faults"] = "all"
         return spec
     faults = []
